@@ -39,7 +39,7 @@ package cloudprovider
 //@   requires ld != nil && ld.cloudProvider != nil && ld.logger != nil
 //@   sendsite requires ch == ld.infoSink && val.IP == ip && val.Instance == instances[ip]
 //@   ensures  sent(ld.infoSink) <= old(sent(ld.infoSink)) + len(ips)
-//@   loop 2 invariant sent(ld.infoSink) <= old(sent(ld.infoSink)) + rangeindex + 1 && len(ips) == old(len(ips))
+//@   loop 1 invariant sent(ld.infoSink) == old(sent(ld.infoSink)) + rangeindex + 1 && ld.infoSink == old(ld.infoSink)
 //@   modifies everything
 
 // doRefresh: evicts or re-queues entries; the cache keeps a holder for every remaining entry and
